@@ -302,10 +302,12 @@ def run(modname, tier, seed, replay_path=None):
         res = merge(results)
         # generic release-build stage (thorough): part of the same workload, fresh seed, against the optimised build without
         # debug assertions / overflow checks -- the build users ship. Modules that run their own release stage opt out.
-        if tier == "thorough" and getattr(mod, "GENERIC_REL", True):
+        if getattr(mod, "GENERIC_REL", True) or tier == "quick":
             try:
-                rel_sh = list(range(0, nshards, 4))
-                er = run_build_stage(modname, tier, seed + 7919, "rel", rel_sh, nshards, max(300, budget // 3))
+                # thorough: every 4th shard; quick: every 8th shard (a slice of the same workload is enough to see a symptom that
+                # exists only without debug assertions / overflow checks)
+                rel_sh = list(range(0, nshards, 4 if tier == "thorough" else 8))
+                er = run_build_stage(modname, tier, seed + 7919, "rel", rel_sh, nshards, max(300, budget // 3) if tier == "thorough" else max(60, budget // 2))
                 res = _merge_extra(res, er)
             except Exception:
                 res["inconclusive"].append("release-build stage exception: " + traceback.format_exc()[-1500:])
@@ -414,7 +416,7 @@ def write_evidence(mod, tier, seed, res, wall, n_unlisted, inconclusive, listed,
             "known_findings_seen": [{"key": k, "n": n} for k, n in listed],
             "unlisted_violation_keys": [{"key": k, "n": n} for k, n in list(unlisted)[:100]],
             "inconclusive": inconclusive[:20],
-            "builds": sorted(set(["chk"] + list(getattr(mod, "EXTRA_BUILDS", {}).get(tier, [])) + (["rel"] if tier == "thorough" else []))),
+            "builds": sorted(set(["chk"] + list(getattr(mod, "EXTRA_BUILDS", {}).get(tier, [])) + ["rel"])),
         }
     ev = {
         "property_id": pid,
